@@ -22,7 +22,7 @@ try:
         if old not in s:
             print("MUTANT-NOT-APPLICABLE: pattern not found in", f); sys.exit(3)
         open(p, "w").write(s.replace(old, new, 1))
-    env = dict(os.environ, GOFLAGS="-mod=mod", GOPROXY="off", GOSUMDB="off", GOTOOLCHAIN="local", VERIF_REPO=root + "/repo",
+    env = dict(os.environ, GOFLAGS="-mod=mod -trimpath", GOPROXY="off", GOSUMDB="off", GOTOOLCHAIN="local", VERIF_REPO=root + "/repo",
                VERIF_OUT=root + "/out", VERIF_KNOWN="/verif/known_findings.json")
     r = subprocess.run(["go", "build", "./..."], cwd=root + "/repo", env=env, stdout=subprocess.PIPE, stderr=subprocess.STDOUT, text=True)
     if r.returncode != 0:
